@@ -138,7 +138,7 @@ def _register_head(rel, qualname, node, ordinal):
             if not n_ or not isinstance(n_, dict) or not n_.get("kind"):
                 return ""
             b_, e_ = A.src_range_text(n_)
-            return _re.sub(r"\s+", "", src_b[b_:e_].decode("latin1")) if b_ is not None and e_ else ""
+            return A.squeeze(src_b[b_:e_].decode("latin1")) if b_ is not None and e_ else ""
         if node.get("kind") == "ForStmt":
             head = {"init": _t(node["inner"][0]), "cond": _t(node["inner"][2]), "inc": _t(node["inner"][3])}
         else:
@@ -278,7 +278,7 @@ def run_loop_isolated(rel, qualname, ordinal, ctx=None, find_kw=None, inner_mode
             if not n_ or not isinstance(n_, dict) or not n_.get("kind"):
                 return ""
             b_, e_ = A.src_range_text(n_)
-            return _re.sub(r"\s+", "", src_b[b_:e_].decode("latin1")) if b_ is not None and e_ else ""
+            return A.squeeze(src_b[b_:e_].decode("latin1")) if b_ is not None and e_ else ""
         if node.get("kind") == "ForStmt":
             head = {"init": _t(node["inner"][0]), "cond": _t(node["inner"][2]), "inc": _t(node["inner"][3])}
         else:
